@@ -1,6 +1,6 @@
 -------------------------- MODULE Trace_TextProtocol --------------------------
 (* One event per created-or-rejected pattern, carrying the outcomes of its parses.   *)
-EXTENDS Integers, Sequences, TLC, Json, IOUtils, PatternScanFn, PatternGrammar
+EXTENDS Integers, Sequences, TLC, Json, IOUtils, PatternScanFn, PatternParse
 VARIABLES l
 Events == JsonDeserialize(IOEnv.TRACE_FILE)
 Rej(clause, k) == PrintT(<<"REJECT", clause, l, k>>)
@@ -16,6 +16,21 @@ Step(e) ==
      THEN \E g \in {Grammar(e.type, e.pattern)} :
           /\ (IF e.created = "ok" /\ g # "Ok" THEN PrintT(<<"DIVERGE", "grammar_rejects_but_pattern_accepted", l, g>>) ELSE TRUE)
           /\ (IF e.created # "ok" /\ g = "Ok" THEN PrintT(<<"DIVERGE", "grammar_accepts_but_pattern_rejected", l>>) ELSE TRUE)
+     ELSE TRUE
+  \* reference clause: what each text parses to under a local-time pattern without designator fields (PatternParse.tla)
+  /\ IF e.type = "LocalTime" /\ e.created = "ok" /\ "tsep" \in DOMAIN e /\ Parsable(e.pattern)
+     THEN \A k \in 1..Len(e.parses) :
+            LET p == e.parses[k] IN
+            IF p.whole /\ p.out \in {"success", "failure"}
+            THEN \E r \in {Parse(e.pattern, p.text, e.tsep)} :
+                 \* (the implementation takes a NUL character for the end of the text and ignores what follows it: "17:24" + NUL + anything
+                 \*  parses like "17:24"; the reference parser reads the whole text - those disagreements get their own name)
+                 IF r.ok # (p.out = "success")
+                 THEN PrintT(<<"DIVERGE", IF \E j \in 1..Len(p.text) : p.text[j] = 0 THEN "text_after_a_nul_character_is_ignored"
+                                         ELSE "reference_parser_disagrees_on_success", l, k>>)
+                 ELSE IF r.ok /\ "nod" \in DOMAIN p /\ r.nod # p.nod THEN PrintT(<<"DIVERGE", "reference_parser_disagrees_on_the_value", l, k>>)
+                 ELSE TRUE
+            ELSE TRUE
      ELSE TRUE
   /\ \A k \in 1..Len(e.parses) :
        LET p == e.parses[k] IN
